@@ -18,6 +18,7 @@ import unified_planning as up
 import unified_planning.engines as engines
 from unified_planning.engines.mixins.compiler import CompilationKind, CompilerMixin
 from unified_planning.engines.results import CompilerResult
+from unified_planning.engines.compilers.utils import rewritten_problem_kind
 from unified_planning.model import Problem, ProblemKind, Fluent, FNode
 from unified_planning.model.fluent import get_all_fluent_exp
 from unified_planning.model.types import _RealType, _IntType
@@ -129,9 +130,15 @@ class BoundedTypesRemover(engines.engine.Engine, CompilerMixin):
     def resulting_problem_kind(
         problem_kind: ProblemKind, compilation_kind: Optional[CompilationKind] = None
     ) -> ProblemKind:
-        new_kind = problem_kind.clone()
+        new_kind = rewritten_problem_kind(problem_kind)
         if new_kind.has_bounded_types():
             new_kind.unset_numbers("BOUNDED_TYPES")
+        # the bounds become conditions that must hold whenever the state changes
+        if new_kind.has_timed_effects():
+            new_kind.set_time("TIMED_GOALS")
+        # the gains of the oversubscription goals that become equal are summed (1/2 + 1/2 is an integer)
+        if new_kind.has_real_numbers_in_oversubscription():
+            new_kind.set_oversubscription_kind("INT_NUMBERS_IN_OVERSUBSCRIPTION")
         return new_kind
 
     def _compile(
